@@ -495,9 +495,14 @@ func (c *Ctx) storeField(s *State, base Term, structT types.Type, field int, v V
 				if cfc != nil {
 					lvl = cfc.AcquiresLevel
 				}
-				c.structural(cfc != nil && (lvl == 0 || lvl >= ffc.AcquiresLevel) && cfc.AcquiresLevelDeclared, "locklevel",
+				if cfc == nil || cfc.Detached {
+					// a closure without a contract of its own (new or restructured code): its lock behaviour is unknown
+					c.unsupported(fmt.Sprintf("closure %s stored in %s has no contract: the lock order of what it calls is not decided", qualFnName(ci.fn), fieldKey))
+				} else {
+					c.structural(cfc != nil && (lvl == 0 || lvl >= ffc.AcquiresLevel) && cfc.AcquiresLevelDeclared, "locklevel",
 					fmt.Sprintf("%s/closure-into:%s:%s", c.key, fieldKey, qualFnName(ci.fn)), "",
 					fmt.Sprintf("closure %s (acquires-level %d) stored in %s whose contract allows locks of level >= %d", qualFnName(ci.fn), lvl, fieldKey, ffc.AcquiresLevel), []string{"C13"})
+				}
 			}
 		}
 	}
